@@ -64,16 +64,27 @@ fn ref_run(src: &str, cfg: &MachineConfig, n: usize, ints: &[usize], resets: &[u
     (m, i)
 }
 
+/// All sub-multisets of `base` with multiplicity 0..=max_mult per element (distinct lists only);
+/// every list that is not already descending is also given in reverse order (schedules are lists,
+/// not sorted sets).
 fn subsets(base: &[usize], with_dup: bool) -> Vec<Vec<usize>> {
-    let mut out = vec![];
-    for mask in 0..(1u32 << base.len()) {
-        let v: Vec<usize> = base.iter().enumerate().filter(|(i, _)| mask >> i & 1 == 1).map(|(_, x)| *x).collect();
-        out.push(v.clone());
-        if with_dup && v.len() == 1 {
-            out.push(vec![v[0], v[0]]);
+    let max_mult = if with_dup { 2 } else { 1 };
+    let mut out: Vec<Vec<usize>> = vec![vec![]];
+    for b in base {
+        let mut next = vec![];
+        for v in &out {
+            for m in 0..=max_mult {
+                let mut w = v.clone();
+                for _ in 0..m {
+                    w.push(*b);
+                }
+                next.push(w);
+            }
         }
+        out = next;
     }
-    // distinct multisets only
+    let mut rev: Vec<Vec<usize>> = out.iter().filter(|v| v.len() > 1).map(|v| v.iter().rev().cloned().collect()).collect();
+    out.append(&mut rev);
     out.sort();
     out.dedup();
     out
@@ -287,7 +298,7 @@ fn invocations(dir: &std::path::Path) -> Vec<Inv> {
     // interrupt / reset schedules on the ISR program and the forever program
     for (p, f) in [&files[3], &files[0]] {
         for n in [0usize, 1, 50, 120] {
-            for ints in subsets(&[0, 1, 60, n.saturating_sub(1), n, n + 3], true).into_iter().step_by(3) {
+            for ints in subsets(&[0, 1, 60, n.saturating_sub(1), n], true).into_iter().step_by(5) {
                 for resets in [vec![], vec![0], vec![70], vec![n.saturating_sub(1)], vec![5, 5]] {
                     v.push(mk(format!("{} n={} ints={:?} resets={:?}", PROGS[*p].0, n, ints, resets), *p, f, n, MachineConfig::default(), vec![], ints.clone(), resets, None));
                 }
@@ -429,10 +440,24 @@ pub fn run() {
         let mut outcomes = std::collections::HashSet::new();
         for j in rg {
             let (p, c, n) = jobs[j];
+            // plain subsets of the full boundary sets + sub-multisets (multiplicity <= 2) of smaller ones
             let base_i = [0usize, 1, 2, 5, n.saturating_sub(1), n, n + 3];
             let base_r = if quick { vec![0usize, 5, n.saturating_sub(1), n] } else { vec![0usize, 1, 5, n.saturating_sub(1), n, n + 3] };
-            let ints = subsets(&base_i, true);
-            let resets = subsets(&base_r, true);
+            let mut ints = subsets(&base_i, false);
+            // the multiset family is complete for small budgets and a few larger ones (quick) / all (thorough)
+            if !quick || n <= 12 || n % 10 == 0 {
+                ints.extend(subsets(&[1, 5, n.saturating_sub(1), n / 2, n], true));
+            }
+            ints.sort();
+            ints.dedup();
+            let mut resets = subsets(&base_r, false);
+            resets.extend(subsets(&[0, 5, n.saturating_sub(1)], true));
+            resets.sort();
+            resets.dedup();
+            if quick && n > 12 {
+                // the full product stays for budgets <= 12; above, every 4th reset list
+                resets = resets.into_iter().step_by(4).collect();
+            }
             for i in &ints {
                 for r in &resets {
                     runs += 1;
@@ -517,7 +542,7 @@ pub fn run() {
     ctx.set("distinct_nontrivial", distinct);
     ctx.set("rule", "schedule = (program, configuration, budget N, multiset of interrupt cycles, multiset of reset cycles); every schedule of the stated families is run through RunnerConfig::run and through REF-RUN (the statement's loop on the public Machine API): emulated_cycles and the final Machine (PartialEq) must agree; RunExpectations::verify over all 2^3 stated-field subsets x match/mismatch values on 4 final machines; process level: stdout values and exit status of the real binary per invocation");
     ctx.set("exhaustive", true);
-    ctx.set("bounds", format!("5 programs x 3 configurations x budgets 0..={} (+90/120/150 for the ISR program); interrupt cycles: all sub-multisets of {{0,1,2,5,N-1,N,N+3}} (+ doubled singletons); reset cycles: all sub-multisets of {}; {} verify() cases; {} process invocations", max_n, if quick { "{0,5,N-1,N}" } else { "{0,1,5,N-1,N,N+3}" }, nexp, nproc));
+    ctx.set("bounds", format!("5 programs x 3 configurations x budgets 0..={} (+90/120/150 for the ISR program); interrupt cycles: all subsets of {{0,1,2,5,N-1,N,N+3}} + all sub-multisets (multiplicity <= 2) of {{1,5,N-1,N/2,N}}, each also in reverse order; reset cycles: all subsets of {} + sub-multisets of {{0,5,N-1}}; {} verify() cases; {} process invocations", max_n, if quick { "{0,5,N-1,N}" } else { "{0,1,5,N-1,N,N+3}" }, nexp, nproc));
     ctx.set("library_runs", runs);
     ctx.set("verify_cases", nexp);
     ctx.set("process_invocations", nproc);
